@@ -112,4 +112,31 @@ theorem keeps_path_injectivity (fresh : RG L D → Nat) (hf : FreshOk fresh) (r 
     (hl : r.alive left = true) (hc : Closed r) (t : T L D) : Keeps r (mergeT fresh r left t).1 :=
   mergeT_keeps fresh hf r left hl hc t
 
+/-- the two-pass program that `merge` runs (second pass comparing `kid(left, a)` with the table at every node)
+    computes, on a tree, exactly what the first-pass program computes: same final state, same table, and the second
+    pass never reports a difference -/
+theorem two_pass_eq_first_pass (c : Nat) (h : RightView L D) (t : T L D) (hrep : HRepr h t) (hnd : (allIds t).Nodup)
+    (hlab : LabelsOK t) (fuel left : Nat) (r : R L D) (hl : left ∈ r.ids) (hc : Closed (proj r)) :
+    runR (R.step c) (mergeRec2 h fuel left t.id []) r = liftR (runR (R.step c) (mergeRec h fuel left t.id []) r) :=
+  MT.two_pass_eq_first_pass c h t hrep hnd hlab fuel left r hl hc
+
+/-- with calls inside the limits and enough fuel (the depth of the tree), the two-pass run returns a table -/
+theorem run_succeeds (n c : Nat) (h : RightView L D) (t : T L D) (hrep : HRepr h t) (hnd : (allIds t).Nodup)
+    (hlab : LabelsOK t) (fuel left : Nat) (hf : t.depth ≤ fuel) (r : R L D) (hl : left ∈ r.ids) (hc : Closed (proj r))
+    (hv : ValidRun (R.step c) (OkStep n c) (mergeRec2 h fuel left t.id []) r) :
+    ∃ m' r', runR (R.step c) (mergeRec2 h fuel left t.id []) r = some (some m', r') ∧
+      runR (R.step c) (mergeRec h fuel left t.id []) r = some (m', r') :=
+  MT.merge_run_succeeds n c h t hrep hnd hlab fuel left hf r hl hc hv
+
+/-- **merge of a tree into a graph, end to end on the model** (see `MT.merge_of_tree`) -/
+theorem merge_of_tree (n c : Nat) (g hg : G L D) (r : R L D) (hrel : RelAt n c g r)
+    (t : T L D) (hrep : HRepr (viewOf hg) t) (hnd : (allIds t).Nodup) (hlab : LabelsOK t)
+    (hkeys : ∀ v, v ∈ keys hg ↔ v ∈ allIds t) (left : Nat) (hl : left ∈ r.ids) (hc : Closed (proj r))
+    (hv : ValidRun (R.step c) (OkStep n c) (mergeRec2 (viewOf hg) (cap hg + 1) left t.id []) r) :
+    ∃ g' r' m', merge g hg left t.id = some (g', .ok) ∧ RelAt n c g' r' ∧
+      runR (R.step c) (mergeRec (viewOf hg) (cap hg + 1) left t.id []) r = some (m', r') ∧
+      Ext (proj r) (proj r') ∧
+      (∀ p ch, t.walk p = some ch → ∃ u, walk (proj r') left p = some u ∧ (ch.id, u) ∈ m') :=
+  MT.merge_of_tree n c g hg r hrel t hrep hnd hlab hkeys left hl hc hv
+
 end Props.C11
